@@ -410,8 +410,19 @@ fn hostile_field() -> BoxedStrategy<Option<String>> {
     .boxed()
 }
 
+fn hostile_name() -> BoxedStrategy<Option<Vec<u8>>> {
+    prop_oneof![
+        6 => Just(None),
+        3 => proptest::sample::select(vec!["étude.spec", "€/x", "🦀", "", ".", "..", "./", "/", "TRAILER!!!", "./TRAILER!!!", "a\0b", "\0", "./a", "./usr/b", "./usr/c", "a", "usr/b", "ß"]).prop_map(|s| Some(s.as_bytes().to_vec())),
+        1 => proptest::collection::vec(any::<u8>(), 0..6).prop_map(Some),
+        1 => any::<String>().prop_map(|s| Some(s.into_bytes())),
+        1 => proptest::sample::select(vec![4094usize, 4095, 4096, 4097]).prop_map(|n| Some(vec![b'n'; n])),
+    ]
+    .boxed()
+}
+
 pub fn hostile_cpio() -> BoxedStrategy<C04Case> {
-    (filepkg::model_files(4, 24), any::<bool>(), proptest::collection::vec((hostile_field(), hostile_field(), hostile_field(), 0u8..12, any::<[bool; 3]>()), 0..6), prop::bool::weighted(0.8))
+    (filepkg::model_files(4, 24), any::<bool>(), proptest::collection::vec(((hostile_field(), hostile_field(), hostile_field(), hostile_name()), 0u8..12, any::<[bool; 3]>()), 0..6), prop::bool::weighted(0.8))
         .prop_map(|(files, long_sizes, perts, trailer)| {
             let mut archive: Vec<CpioSpec> = if long_sizes {
                 files.iter().enumerate().filter(|(_, f)| !f.is_ghost()).map(|(i, f)| CpioSpec::stripped(i as u32, f.content.clone())).collect()
@@ -424,11 +435,14 @@ pub fn hostile_cpio() -> BoxedStrategy<C04Case> {
                 archive.push(CpioSpec::newc("./ghost", 0o100644, 1, b"boo".to_vec()));
             }
             let n = archive.len();
-            for (i, (size_f, name_f, idx_f, magic, flags)) in perts.into_iter().enumerate() {
+            for (i, ((size_f, name_f, idx_f, new_name), magic, flags)) in perts.into_iter().enumerate() {
                 if n == 0 {
                     break;
                 }
                 let e = &mut archive[i % n];
+                if let Some(nm) = new_name {
+                    e.name = nm;
+                }
                 e.size_field = size_f.or(e.size_field.take());
                 e.namesize_field = name_f.or(e.namesize_field.take());
                 if let Some(f) = idx_f {
